@@ -97,6 +97,25 @@ Definition to_marker_ok (W : world) (to who : addr) : bool :=
   | None => true
   end.
 
+(** canForceTransferFrom: a forced transfer may take coins out of accounts that have signed before
+    (the users), out of marker accounts, but not out of module accounts (sequence 0); an address
+    reserved for a marker that does not exist is treated like an account that never signed (ASSUMED:
+    in the code it depends on whether a base account was ever created there by receiving coins;
+    the harness does not use such an address as the source of a forced transfer). *)
+Definition force_from_ok (W : world) (from : addr) : bool :=
+  negb (blocked from) &&
+  match denom_of from with
+  | Some d' => match c_mk (cells W d') with Some _ => true | None => false end
+  | None => true
+  end.
+(** TransferCoin takes the forced route exactly when the admin moves somebody else's coins, the
+    marker allows forced transfer and the admin holds FORCE_TRANSFER. *)
+Definition uses_force (s : state) (admin from : addr) : bool :=
+  match mk s with
+  | Some m => negb (N.eqb admin from) && forced m && has m admin RForce
+  | None => false
+  end.
+
 (** DeleteMarker: GetAllBalances(marker account) must be zero; this is the part about other denoms. *)
 Definition account_empty_of_others (W : world) (d : denom) : bool :=
   forallb (fun e => N.eqb e d || (get (c_bal (cells W e)) (escrow d) =? 0)) (dom W).
@@ -209,6 +228,7 @@ Definition mstep_opt (W : world) (o : mop) : option world :=
   | MTransfer d admin from to amt =>
       guard (in_dom W d) ;;
       guard (to_marker_ok W to admin) ;;
+      guard (negb (uses_force (view W d) admin from) || force_from_ok W from) ;;
       let az := authz_accepts W admin from to d amt in
       s' <- step_opt (view W d) (OTransfer admin from to amt az) ;;
       let W1 := put W d s' in
@@ -221,6 +241,7 @@ Definition mstep_opt (W : world) (o : mop) : option world :=
       guard (has m caller RWithdraw) ;;
       guard (to_marker_ok W to caller) ;;
       guard (status_eqb (st m) Active) ;;
+      guard (negb (blocked to)) ;;
       s' <- step_opt (view W e) (OMove (escrow d) to amt) ;;
       Some (put W e s')
   | MGovWithdrawOther authority d to e amt =>
